@@ -486,12 +486,50 @@ func scenarios(thorough bool) []scenario {
 		tr.add("after reset: %s %s %s", render(t.VarNode), render(t.VarAny), render(t.ReadVarHidden()))
 	})
 
+	// ---- fixed-size byte arrays by value (digests, raw ids) next to a byte slice ----
+	idA := [16]byte{1, 2, 3, 4, 5, 6, 7, 8, 9, 10, 11, 12, 13, 14, 15, 16}
+	for mi, mock := range []string{"apply", "return", "when"} {
+		mock := mock
+		add(fmt.Sprintf("Bytes/%d-%s", mi, mock), func(tr *transcript) {
+			b := mocker.Create()
+			defer b.Reset()
+			switch mock {
+			case "apply":
+				b.Func(t.Digest).Apply(func(id [16]byte, data []byte) [16]byte {
+					tr.add("  cb Digest(%v,%q)", id, data)
+					id[0] = 99
+					return id
+				})
+				b.Struct(&t.T{}).Method("Sum").Apply(func(r *t.T, data []byte) [4]byte {
+					tr.add("  cb Sum(recv.K=%d,%q)", r.K, data)
+					return [4]byte{7, 7, 7, 7}
+				})
+			case "return":
+				b.Func(t.Digest).Return([16]byte{42})
+				b.Struct(&t.T{}).Method("Sum").Return([4]byte{8, 8, 8, 8})
+			case "when":
+				b.Func(t.Digest).Return([16]byte{1}).When(idA, arg.Any()).Return([16]byte{2})
+			}
+			tr.do("Digest(idA,abc)", func() string { return fmt.Sprint(t.Digest(idA, []byte("abc"))) })
+			tr.do("Digest(zero,nil)", func() string { return fmt.Sprint(t.Digest([16]byte{}, nil)) })
+			tr.do("Sum(xy)", func() string { return fmt.Sprint((&t.T{K: 5}).Sum([]byte("xy"))) })
+		})
+	}
+
 	// ---- time.Now is what the logger itself calls ----
 	add("TimeNow/return", func(tr *transcript) {
 		b := mocker.Create()
 		defer b.Reset()
 		fixed := time.Unix(1700000000, 0).UTC()
 		b.Func(time.Now).Return(fixed)
+		tr.do("time.Now()", func() string { return time.Now().UTC().Format(time.RFC3339) })
+		tr.do("F after", func() string { return fmt.Sprint(t.F(1, "a")) })
+	})
+	add("TimeNow/by-name-apply", func(tr *transcript) {
+		// the same target reached through the by-name entry point (stateless replacement, as below)
+		b := mocker.Create()
+		defer b.Reset()
+		b.Pkg("time").ExportFunc("Now").Apply(func() time.Time { return time.Unix(1700000002, 0).UTC() })
 		tr.do("time.Now()", func() string { return time.Now().UTC().Format(time.RFC3339) })
 		tr.do("F after", func() string { return fmt.Sprint(t.F(1, "a")) })
 	})
